@@ -274,7 +274,14 @@ func (w *World) deliver(name string, signer int, params []*big.Int, f func(ctx s
 		funded := int64(0)
 		credited, slashNow := bi(0), bi(0)
 		if d, err := w.s.Disputekeeper.Disputes.Get(w.ctx, id); err == nil {
-			if d.DisputeRound > 1 || d.FeeTotal.GTE(d.SlashAmount) {
+			// funded: the fee payments on record for this dispute (a refunded payment is taken off the record) cover the
+			// dispute fee; further rounds take no stake and count as funded
+			paidOnRecord := math.ZeroInt()
+			_ = w.s.Disputekeeper.DisputeFeePayer.Walk(w.ctx, collections.NewPrefixedPairRange[uint64, []byte](id), func(_ collections.Pair[uint64, []byte], p disputetypes.PayerInfo) (bool, error) {
+				paidOnRecord = paidOnRecord.Add(p.Amount)
+				return false, nil
+			})
+			if d.DisputeRound > 1 || (d.FeeTotal.GTE(d.SlashAmount) && paidOnRecord.GTE(d.SlashAmount)) {
 				funded = 1
 			}
 			// what the message added to the fee total of the dispute, and the stake the same message escrowed (the slash
